@@ -15,6 +15,7 @@ def P(name, pkg, race=False, run=None, quick=1500, thorough=14400, tiers=None, a
     return d
 
 PROPS = {
+    "C11": {"level": "exploration", "parts": [P("step", "c11", run="^TestC11$"), P("race", "c11", race=True, run="^TestC11Race$")]},
     "C10": {"level": "exploration", "parts": [P("step", "c10", run="^TestC10$"), P("race", "c10", race=True, run="^TestC10Race$")]},
     "C20": {"level": "exploration", "parts": [P("main", "c20", run="^TestC20$"),
                                               P("fuzz", "c20", tiers=["thorough"], fuzz={"target": "FuzzResolvers", "execs": {"quick": 100000, "thorough": 2000000}})]},
